@@ -36,12 +36,12 @@ type verifC06Out struct {
 	got []edge.Message
 }
 
-func (e *verifC06Out) Collect(m edge.Message) error            { e.got = append(e.got, m); return nil }
-func (e *verifC06Out) Collected() int64                        { return int64(len(e.got)) }
-func (e *verifC06Out) Emitted() int64                          { return 0 }
-func (e *verifC06Out) CollectedVar() kexpvar.IntVar            { return new(kexpvar.Int) }
-func (e *verifC06Out) EmittedVar() kexpvar.IntVar              { return new(kexpvar.Int) }
-func (e *verifC06Out) ReadGroupStats(func(*edge.GroupStats))   {}
+func (e *verifC06Out) Collect(m edge.Message) error          { e.got = append(e.got, m); return nil }
+func (e *verifC06Out) Collected() int64                      { return int64(len(e.got)) }
+func (e *verifC06Out) Emitted() int64                        { return 0 }
+func (e *verifC06Out) CollectedVar() kexpvar.IntVar          { return new(kexpvar.Int) }
+func (e *verifC06Out) EmittedVar() kexpvar.IntVar            { return new(kexpvar.Int) }
+func (e *verifC06Out) ReadGroupStats(func(*edge.GroupStats)) {}
 
 type verifC06Timer struct{}
 
